@@ -90,7 +90,7 @@ Record sinv (s : isys) : Prop := mkSinv {
   si_b : tinv (i_leader s) (i_synced s) (i_b s);
   si_wa : winv (i_leader s) (i_synced s) (i_a s);
   si_wb : winv (i_leader s) (i_synced s) (i_b s);
-  si_sync : i_synced s = 0 \/ i_frev s = i_synced s;
+  si_sync : i_synced s <= i_frev s;      (* the backend's read revision is at least what the syncer installed *)
   si_mutex : match i_mutex s with
              | None => ~ installing (i_a s) /\ ~ installing (i_b s)
              | Some TA => ~ installing (i_b s)
@@ -99,7 +99,7 @@ Record sinv (s : isys) : Prop := mkSinv {
 }.
 
 Lemma sinv_init l0 f0 : sinv (i_init l0 f0).
-Proof. constructor; cbn; unfold tinv, winv, installing; cbn; auto. Qed.
+Proof. constructor; cbn; unfold tinv, winv, installing; cbn; auto; lia. Qed.
 
 Lemma run_snoc refetch share s ls l : run refetch share s (ls ++ [l]) = step refetch share (run refetch share s ls) l.
 Proof. unfold run. rewrite fold_left_app. reflexivity. Qed.
@@ -292,18 +292,18 @@ Proof.
 Qed.
 
 Lemma c18_overlap_sound : forall r l b_resp sets a_scan a_nonempty,
-  (0 < r)%N -> (forall v, l = ReachOk v -> (r <= v)%N) ->
+  (0 < r)%N ->
   c18_check (OverlapCase r l b_resp sets a_scan a_nonempty) = true ->
   c18_oracle (OverlapCase r l b_resp sets a_scan a_nonempty) = None.
 Proof.
-  intros r l b_resp sets a_scan a_nonempty Hr Hv H. unfold c18_check in H.
+  intros r l b_resp sets a_scan a_nonempty Hr H. unfold c18_check in H.
   destruct l as [v| | |]; unfold overlap_model, sync_read in H; unfold c18_oracle;
     repeat (apply andb_true_iff in H; destruct H as [H ?]);
     apply N.eqb_eq in H1; subst a_scan; apply Bool.eqb_prop in H0; subst a_nonempty;
     apply list_eqb_N_eq in H2; subst sets.
-  - specialize (Hv v eq_refl).
-    assert (E1 : (r <=? v)%N = true) by (apply N.leb_le; lia).
-    assert (E2 : (0 <? v)%N = true) by (apply N.ltb_lt; lia). rewrite E1, E2. reflexivity.
+  - (* a later successful fetch: the read revision is the larger of the two, whatever the leader reported *)
+    assert (E1 : (r <=? N.max r v)%N = true) by (apply N.leb_le; lia).
+    assert (E2 : (0 <? N.max r v)%N = true) by (apply N.ltb_lt; lia). rewrite E1, E2. reflexivity.
   - destruct b_resp; try discriminate. cbn. rewrite N.eqb_refl, N.leb_refl.
     assert (E2 : (0 <? r)%N = true) by (apply N.ltb_lt; lia). rewrite E2. reflexivity.
   - destruct b_resp; try discriminate. cbn. rewrite N.eqb_refl, N.leb_refl.
@@ -344,7 +344,8 @@ Proof.
   intros old version ms ml fr pc H. unfold c18_check in H. cbn in H.
   repeat (apply andb_true_iff in H; destruct H as [H ?]).
   destruct ms; [discriminate|]. destruct ml; [discriminate|]. apply N.eqb_eq in H1. subst fr. subst pc.
-  unfold c18_oracle. rewrite N.leb_refl. reflexivity.
+  unfold c18_oracle. cbn [tk_revision]. assert (E : (version <=? N.max old version)%N = true) by (apply N.leb_le; lia).
+  rewrite E. reflexivity.
 Qed.
 
 (* a forwarded transaction never installs a revision on the follower, whatever the leader's endpoint does *)
